@@ -5,7 +5,7 @@ def run(res, tier, seed, replay):
     res.cov["rule"] = ("real: random histories (1-3 lifetimes quick / 1-8 thorough, 0-12 ops each: installs with repetition over 6 u64 + 2 generic + 2 bool targets, kinds raw/closure/fake!/unchecked/boolean, calls, "
                        "optional terminator: user panic / refused signature / null pointer / refused boolean) through the public API in a forked child with interposed mmap/munmap/mprotect/__clear_cache; "
                        "the extracted Injector.lifetime model runs on the observed kernel answers; compared: every event segment in order (system calls, flush ranges and content), outcomes, call results vs the model's resolve; "
-                       "monitors: bytes and behaviour of every target after each scope exit, latest-installation-wins during; plus one history per kind of target PLACEMENT in synthetic code arenas (page-aligned entry, page-straddling, low address, jmp-stub entry, odd alignments, trampoline forced to either end of the window, fake at the +-2 GiB edge); distinct = distinct (lifetimes, op-kind set, repeated-target flag)")
+                       "monitors: bytes and behaviour of every target after each scope exit, latest-installation-wins during; plus sequences over sibling ASYNC functions (fake / re-fake / await / another thread's lifetime through the checked and unchecked async entry points / drop), plus one history per kind of target PLACEMENT in synthetic code arenas (page-aligned entry, page-straddling, low address, jmp-stub entry, odd alignments, trampoline forced to either end of the window, fake at the +-2 GiB edge); distinct = distinct (lifetimes, op-kind set, repeated-target flag)")
     res.cov["trusted_base"] = vlib.TRUSTED_COMMON + ["L0 x86-64 fragment semantics (resolve)", "harness/real interposers (mmap, munmap, mprotect, __clear_cache) and fork isolation",
                                                       "Rust drop order / drop-on-unwind semantics as modelled in Injector.scope_exit"]
     res.assumptions = ["mmap returns a mapping disjoint from the entry slots of the named functions", "mprotect does not fail at restore time"]
@@ -21,3 +21,8 @@ def run(res, tier, seed, replay):
     # every kind of target placement (page-aligned, straddling, low, forwarding stub, every alignment, deterministic trampoline at the window's ends, fake at the +-2 GiB edge)
     import arenalib as _al, random as _rnd
     histlib.check_histories(res, "c02", 0, seed + 20, "full", extra_lines=_al.placement_suite(_rnd.Random(seed + 20), "pl", tier))
+    # async installations are installations too: sequences of fake / re-fake / await / drop over sibling async fns, with ANOTHER thread running a
+    # lifetime of its own on the same async fn through the checked and the unchecked entry points (it must wait; the latest installation of the
+    # live injector stays in effect; everything is original afterwards)
+    import importlib
+    importlib.import_module("props.c14").async_part(res, tier, seed + 214, 60 if tier == "quick" else 1500, False)
